@@ -207,7 +207,7 @@ var ruleZipMarkers = &core.Rule{ID: "R19.1", Min: 8,
 	}}
 
 var ruleZipSignatures = &core.Rule{ID: "R19.2", Min: 10,
-	Doc: "stored-mimetype formats: for every zip descendant whose detector is offset(sig, k): k = 30 (name offset in the local file header) and sig = \"mimetype\" + the node's registered type; when one signature is a proper prefix of another's the longer one is its child (so that the first match is the most specific)",
+	Doc: "stored-mimetype formats: for every zip descendant whose detector tests a prefix of raw[k:] (signature and offset folded through the constructor chain into the closure): k = 30 (name offset in the local file header) and sig = \"mimetype\" + the node's registered type; when one signature is a proper prefix of another's the longer one is its child (so that the first match is the most specific)",
 	Run: func(c *core.Ctx, s *core.Sink) {
 		tm := tree.Get(c)
 		_, z := zipWalker(c, tm)
@@ -318,7 +318,7 @@ var ruleZipSignatures = &core.Rule{ID: "R19.2", Min: 10,
 	}}
 
 var ruleZipWalk = &core.Rule{ID: "R19.5", Min: 5,
-	Doc: "entry walker layout: the first name is read at offset 30, the compressed size at offset 18, the next header is searched after size+49 bytes, then a loop with constant trip count 4 follows headers: the marker is looked for in at most six entries; every failure of the bounded cursor returns false",
+	Doc: "entry walker layout: the first name is read at offset 30, the compressed size at offset 18, the next header is searched after size+49 bytes, then a loop with constant trip count 4 (counted or range-over-int form) follows headers: the marker is looked for in at most six entries; every failure of the bounded cursor returns false",
 	Run: func(c *core.Ctx, s *core.Sink) {
 		tm := tree.Get(c)
 		w, _ := zipWalker(c, tm)
